@@ -70,7 +70,8 @@ static long fam_count(int tier, int fam)
     return n;
 }
 
-#define N_SHARED (8 * 2 * 3)	/* type x solve order x guess */
+#define N_SHARED (8 * 2 * 3 * 3 * 2)	/* type x family x grid relation x solve
+					   order x guess */
 
 static long count(int tier)
 {
@@ -364,29 +365,64 @@ out:
 }
 
 /*
- * One unknown parameter used by two vnacal_new_t structures with different
- * frequency grids (2 and 5 points): solve one, then the other, then the
- * first again; after every solve vnacal_get_parameter_value must return the
- * most recently solved values at every frequency of that grid.
+ * Unknown parameters shared by two vnacal_new_t structures A and B of one
+ * vnacal_t (the same physical standards used for two calibrations): solve
+ * one, then the other, then the first again; after every solve
+ * vnacal_get_parameter_value must return the most recently solved values at
+ * every frequency of that solve's grid.  Grid relations:
+ *   0  A on 2 points, B on 5 (different lengths)
+ *   1  A and B on 3 points each, B's band shifted (same length, other
+ *      frequencies, overlapping bands)
+ *   2  A and B on 4 points with the same end points, other interior points
+ * Families: the unknown reflect on a 1x1 calibration (iterative solver, all
+ * types) and TRL on 2x2 (closed-form path, T8 U8 TE10 UE10).
  */
+#define N_SHARED_FAM 2
+#define N_SHARED_GRID 3
 static void run_shared(long idx, vf_result *r)
 {
     static cs_scenario a, b;
     int gi = vf_digit(&idx, 3);
     int order = vf_digit(&idx, 2);
+    int grel = vf_digit(&idx, N_SHARED_GRID);
+    int sfam = vf_digit(&idx, N_SHARED_FAM);
     vnacal_type_t type = types[idx];
     const char *tname = vnacal_type_to_name(type);
     cs_c guess = gmag[gi] * cexp(I * gph[gi] * M_PI / 180.0);
     int unk[8], nunk;
     char sig[160];
     vnacal_t *vcp;
+    const int fam = sfam ? F_TRL : F_UREFLECT1;
+    const int nfa = grel == 0 ? 2 : grel == 1 ? 3 : 4;
+    const int nfb = grel == 0 ? 5 : nfa;
 
-    vf_desc(r, "shared unknown reflect %s 1x1: vnacal_new_t A on 2 "
-	    "frequencies and B on 5, solved %s, values read after each "
-	    "solve", tname, order ? "B, A, B" : "A, B, A");
+    vf_desc(r, "shared unknown%s %s: vnacal_new_t A on %d frequencies and "
+	    "B on %d (%s), solved %s, values read after each solve",
+	    sfam ? "s of a TRL 2x2" : " reflect 1x1", tname, nfa, nfb,
+	    grel == 0 ? "different lengths" : grel == 1 ? "same length, "
+	    "shifted band" : "same length and end points, other interior "
+	    "points", order ? "B, A, B" : "A, B, A");
+    if (sfam && idx >= 4) {
+	vf_outcome(r, "n/a (TRL needs an 8/10-term type)");
+	return;
+    }
     unsigned long mark = vf_exec_begin();
-    build(&a, F_UREFLECT1, type, 2, 2, guess, 0, 1, unk, &nunk);
-    build(&b, F_UREFLECT1, type, 2, 5, guess, 0, 1, unk, &nunk);
+    build(&a, fam, type, 2, nfa, guess, 0, 1, unk, &nunk);
+    build(&b, fam, type, 2, nfb, guess, 0, 1, unk, &nunk);
+    if (grel != 0) {
+	/* B's grid: same error networks as functions of frequency */
+	double fv[CS_MAXF];
+	const double f0 = a.vna.f[0], f1 = a.vna.f[nfa - 1];
+	for (int i = 0; i < nfb; ++i) {
+	    if (grel == 1)
+		fv[i] = a.vna.f[i] + 0.37 * (f1 - f0);
+	    else
+		fv[i] = (i == 0 || i == nfb - 1) ? a.vna.f[i] :
+		    a.vna.f[i] + 0.41 * (a.vna.f[i + 1] - a.vna.f[i]);
+	}
+	cs_make_vna_f(&b.vna, type, b.vna.rows, b.vna.cols, nfb, fv,
+		b.vna.variant);
+    }
     vf_errlog_reset(&elog);
     vcp = vnacal_create((vnaerr_error_fn_t *)vf_errfn, &elog);
     if (vcp == NULL || cs_make_params(vcp, &a) != 0) {
@@ -413,24 +449,27 @@ static void run_shared(long idx, vf_result *r)
 		    use_b ? "B" : "A", elog.count ? elog.msg[0] : "");
 	    goto out;
 	}
-	for (int f = 0; f < sc->vna.nf; ++f) {
-	    cs_c got = vnacal_get_parameter_value(vcp,
-		    a.param[unk[0]].handle, sc->vna.f[f]);
-	    cs_c want = cs_param_value(&sc->vna, &sc->param[unk[0]],
-		    sc->vna.f[f]);
-	    if (!(cabs(got - want) <= 1e-4)) {
-		snprintf(sig, sizeof(sig), "shared:param-wrong:%s", tname);
-		vf_fail(r, sig, "after solve %d (%s, %d frequencies) the "
-			"shared unknown reads %g%+gj at %.3g Hz, truth "
-			"%g%+gj", step + 1, use_b ? "B" : "A", sc->vna.nf,
-			creal(got), cimag(got), sc->vna.f[f], creal(want),
-			cimag(want));
-		goto out;
+	for (int u = 0; u < nunk; ++u)
+	    for (int f = 0; f < sc->vna.nf; ++f) {
+		cs_c got = vnacal_get_parameter_value(vcp,
+			a.param[unk[u]].handle, sc->vna.f[f]);
+		cs_c want = cs_param_value(&sc->vna, &sc->param[unk[u]],
+			sc->vna.f[f]);
+		if (!(cabs(got - want) <= 1e-4)) {
+		    snprintf(sig, sizeof(sig), "shared:param-wrong:%s",
+			    tname);
+		    vf_fail(r, sig, "after solve %d (%s, %d frequencies) "
+			    "shared unknown #%d reads %g%+gj at %.4g Hz, "
+			    "truth %g%+gj", step + 1, use_b ? "B" : "A",
+			    sc->vna.nf, u, creal(got), cimag(got),
+			    sc->vna.f[f], creal(want), cimag(want));
+		    goto out;
+		}
 	    }
-	}
     }
     r->nontrivial = 1;
-    vf_outcome(r, "shared-unknown %s", tname);
+    vf_outcome(r, "shared-unknown %s %s grid-relation %d", sfam ? "TRL" :
+	    "reflect", tname, grel);
 out:
     if (vcp != NULL) {
 	cs_delete_params(vcp, &a);
